@@ -295,7 +295,7 @@ def tostringPrim (v : SVal) : Option String :=
   | _ => none
 
 /-- host (library) functions.  `none` result of a sub-computation = "bad argument" fault. -/
-def hostCall (m : M) (name : String) (args : List SVal) : Step :=
+def hostCall (m : M) (name : String) (args : List SVal) (via : Bool := false) : Step :=
   let a0 := listGet args 0
   let a1 := listGet args 1
   let a2 := listGet args 2
@@ -425,12 +425,14 @@ def hostCall (m : M) (name : String) (args : List SVal) : Step :=
      | _ => badArg)
   | "pcall" =>
     if args.isEmpty then badArg
-    else push m (.pcallB m.line m.curFn) (.call a0 args.tail)
-  | "xpcall" => push m (.xpcallB a1 m.line m.curFn) (.call a0 [])
+    else push { m with viaHost := true } (.pcallB m.line m.curFn) (.call a0 args.tail)
+  | "xpcall" => push { m with viaHost := true } (.xpcallB a1 m.line m.curFn) (.call a0 [])
   | "error" =>
     let lvl := if a1.isNil then some 1 else intArg? a1
     (match a0, lvl with
-     | .str h, some 1 => .inl { m with ctrl := .err (.str (hx (posPrefix m.line ++ " ") ++ h)) false }
+     | .str h, some 1 =>
+       if via then unspec "error(msg) called directly by a host function (5.1 adds no position; gopher-lua does)"
+       else .inl { m with ctrl := .err (.str (hx (posPrefix m.line ++ " ") ++ h)) false }
      | .str h, some 2 =>
        (match m.kont.find? (fun f => match f with | .callB .. | .pcallB .. | .xpcallB .. | .coB => true | _ => false) with
         | some (.callB l _ false) => .inl { m with ctrl := .err (.str (hx (posPrefix l ++ " ") ++ h)) false }
@@ -441,13 +443,17 @@ def hostCall (m : M) (name : String) (args : List SVal) : Step :=
   | "assert" =>
     if args.isEmpty then badArg
     else if a0.truthy then vals m args
-    else if a1.isNil then .inl { m with ctrl := .err (sv "assertion failed!") false }
-    else match a1 with
-      | .str _ => .inl { m with ctrl := .err a1 false }      -- luaL_optstring: the message must be a string
-      | .num f => (match numToStr? f with
-        | some h => .inl { m with ctrl := .err (.str h) false }
-        | none => unspec "tostring of a non-integral number")
-      | _ => badArg
+    else
+      -- luaL_error(L, "%s", luaL_optstring(L, 2, "assertion failed!")): the message must be a string and gains the
+      -- position of the caller of assert when that caller is a Lua function
+      let pre := if via then "" else hx (posPrefix m.line ++ " ")
+      if a1.isNil then .inl { m with ctrl := .err (.str (pre ++ hx "assertion failed!")) false }
+      else match a1 with
+        | .str h => .inl { m with ctrl := .err (.str (pre ++ h)) false }
+        | .num f => (match numToStr? f with
+          | some h => .inl { m with ctrl := .err (.str (pre ++ h)) false }
+          | none => unspec "tostring of a non-integral number")
+        | _ => badArg
   | "coroutine.create" =>
     (match a0 with
      | .fn _ | .host _ =>
